@@ -42,3 +42,40 @@ package api
 //@   assert@call setGetMessagesRequests#0 : authed: err == nil && authed(api, r, session)
 //@   assert@call json.Encoder.Encode#0 : authed: err == nil
 //@   assert@call json.Encoder.Encode#0 : addressed: msg.Type == robust.Ping || msg.InterestingFor[session.Id]
+
+// C10: a POST whose client message id equals the last one applied for the session is acknowledged
+// without proposing or proxying anything. C11: only for an authenticated session. C15: see below.
+//@ func HTTP.handlePostMessage
+//@   requires serverOK(api) && r != nil && w != nil && api.raftNode != nil
+//@   requires authed: authed(api, r, session)
+//@   assert@call HTTP.applyMessageWait#0 : notduplicate: !(session in api.ircServerUnlocked.sessions) || api.ircServerUnlocked.sessions[session].lastClientMessageId != req.ClientMessageId
+//@   assert@call HTTP.applyMessageWait#0 : entry: msg.Session == session && msg.Type == robust.IRCFromClient && msg.ClientMessageId == req.ClientMessageId
+//@   assert@call HTTP.maybeProxyToLeader#0 : notduplicate: !(session in api.ircServerUnlocked.sessions) || api.ircServerUnlocked.sessions[session].lastClientMessageId != req.ClientMessageId
+//@   assert@call HTTP.maybeProxyToLeader#1 : notduplicate: !(session in api.ircServerUnlocked.sessions) || api.ircServerUnlocked.sessions[session].lastClientMessageId != req.ClientMessageId
+
+//@ func HTTP.handleDeleteSession
+//@   requires serverOK(api) && r != nil && w != nil && api.raftNode != nil
+//@   requires authed: authed(api, r, session)
+//@   assert@call HTTP.applyMessageWait#0 : entry: msg.Session == session && msg.Type == robust.DeleteSession
+
+// C11: every session route goes through session()/sessionOrProxy() (the preconditions above are
+// proof obligations at the call sites in this function).
+//@ func HTTP.DispatchPublic
+//@   requires serverOK(api) && r != nil && w != nil && api.raftNode != nil && r.URL != nil
+
+// C11: the private dispatcher is only entered with the network password.
+//@ func HTTP.DispatchPrivate
+//@   requires api != nil && r != nil && w != nil
+//@   assert@call HTTP.DispatchPrivateWithoutAuth#0 : password: ok && username == "robustirc" && password == api.networkPassword
+
+// C16: a configuration is only proposed for the revision currently in force, as revision + 1.
+//@ func HTTP.applyConfig
+//@   requires serverOK(api) && api.raftNode != nil
+//@   assert@call HTTP.applyMessageWait#0 : current: revision == api.ircServerUnlocked.Config.Revision && msg.Type == robust.Config && msg.Revision == revision + 1 && msg.Data == body
+//@ func HTTP.handlePostConfig
+//@   requires serverOK(api) && r != nil && w != nil && api.raftNode != nil
+//@   assert@call HTTP.applyConfig#0 : parsed: err == nil
+
+// Not verified itself; callers only know that it may do anything (no ensures are assumed).
+//@ func HTTP.DispatchPrivateWithoutAuth
+//@   modifies *
